@@ -1,7 +1,10 @@
 //! `fvh` — correspondence harness. Runs the real flacenc code (built from /repo's working tree
 //! with `--cfg flacenc_verif`) on generated cases and prints one protocol record per line.
 
+mod api;
 mod gen;
+mod kernel;
+mod parser;
 mod sink;
 mod stream;
 mod util;
@@ -38,6 +41,13 @@ fn main() {
             let focus: String = arg(&args, "--focus", "none".to_string());
             stream::generate(seed, cases, max_samples, &focus, &mut out);
         }
+        "api" => api::generate(seed, flag(&args, "--thorough"), &mut out),
+        "kernel" => kernel::generate(seed, cases, &mut out),
+        "parser" => {
+            let stride: usize = arg(&args, "--burst-stride", 8);
+            let nrandom: usize = arg(&args, "--random", 1000);
+            parser::generate(seed, cases, stride, nrandom, &mut out);
+        }
         "replay" => {
             // records come from $FVH_REPLAY (one record) or stdin (one per line)
             let mut lines: Vec<String> = vec![];
@@ -54,6 +64,7 @@ fn main() {
                 match kind {
                     "sink" => out(sink::replay(&l)),
                     "stream" => out(stream::replay(&l)),
+                    "parser" => out(parser::replay(&l)),
                     _ => out(format!("#cannot-replay {kind}")),
                 }
             }
